@@ -1,3 +1,4 @@
+pub mod c09;
 pub mod c20;
 pub mod c23;
 pub mod c24;
@@ -15,6 +16,7 @@ use crate::core::CheckDef;
 
 pub fn lookup(id: &str) -> Option<CheckDef> {
     Some(match id {
+        "C09" => c09::def(),
         "C20" => c20::def(),
         "C21" => wire::def_c21(),
         "C22" => wire::def_c22(),
@@ -32,4 +34,4 @@ pub fn lookup(id: &str) -> Option<CheckDef> {
     })
 }
 
-pub const ALL: &[&str] = &["C20", "C21", "C22", "C23", "C24", "C25", "C26", "C27", "C28", "C29", "C41", "C42", "C43"];
+pub const ALL: &[&str] = &["C09", "C20", "C21", "C22", "C23", "C24", "C25", "C26", "C27", "C28", "C29", "C41", "C42", "C43"];
